@@ -143,6 +143,9 @@ def unit():
             def __getitem__(self, key):
                 desc, size = key
                 return table.get(desc.paddress.physicaladdress, 0)
+
+            def set_bits(self, *a):
+                raise NotImplementedError()          # as the real hub's mock
         cpu.mem = Mem()
         va, ispriv, iswrite, wasal = ins.get('va', 0), bool(ins.get('ispriv')), bool(ins.get('iswrite')), bool(ins.get('wasaligned'))
         import io
@@ -290,6 +293,9 @@ def unit_ld():
             def __getitem__(self, key):
                 desc, size = key
                 return table.get(desc.paddress.physicaladdress, 0)
+
+            def set_bits(self, *a):
+                raise NotImplementedError()          # as the real hub's mock
         cpu.mem = Mem()
         va, ispriv, iswrite, wasal = ins.get('va', 0), bool(ins.get('ispriv')), bool(ins.get('iswrite')), bool(ins.get('wasaligned'))
         import io
